@@ -1245,6 +1245,7 @@ macro_rules! naming_step_harness {
         #[kani::stub(crate::FileSpec::collision_free_infix_for_rotated_file, rec_collision_free)]
         #[kani::stub(crate::util::eprint_err, stub_eprint_err_ev)]
         #[kani::stub(State::initialize, cut_initialize)]
+        #[kani::stub(list_and_cleanup::CleanupThreadHandle::shutdown, cut_cleanup_thread_shutdown)]
         fn $name() $body
     };
 }
@@ -1374,6 +1375,142 @@ fn c09_rotate_timestamps_direct() {
     std::mem::forget(state);
 }
 }
+
+// Integrated step for the other namings (session 3): the real write_buffer with the real rotation
+// half, then flush(). Whatever the naming does before (number / timestamp infix, collision-free
+// name, rename of the current file), the record is written exactly once, after the rotation, to the
+// writer mounted then, the size count restarts at the record's length, and flush() reaches that writer.
+fn naming_integrated_case(kind: u8) {
+    vs::link_all();
+    vs::cell_set(0, 0);
+    vs::cell_set(1, 0);
+    let s0: u32 = kani::any();
+    kani::assume(s0 < 40);
+    let started = vs::Instant { y: 2024, mo: 2, d: 29, h: 23, mi: 59, s: s0, off: 0 };
+    let now = vs::Instant { y: 2024, mo: 2, d: 29, h: 23, mi: 59, s: s0 + 3, off: 0 };
+    vs::clock_push(now);
+    let idx: u32 = kani::any();
+    kani::assume(idx < 200);
+    let max_size: u64 = kani::any();
+    let current_size: u64 = kani::any();
+    kani::assume(current_size < (1u64 << 63));
+    let ns = match kind {
+        0 => NamingState::NumbersDirect(idx),
+        1 => NamingState::Timestamps { current_timestamp: dt_of(&started), the_current_infix: Some("rCURRENT".to_string()), infix_format: InfixFormat::Std },
+        _ => NamingState::Timestamps { current_timestamp: dt_of(&started), the_current_infix: None, infix_format: InfixFormat::Std },
+    };
+    let mut state = naming_state_with(ns, max_size, current_size);
+    let len: usize = kani::any();
+    kani::assume(len >= 1 && len <= 8);
+    let buf = [b'x'; 8];
+    let r = state.write_buffer(&buf[..len]);
+    let ok = r.is_ok();
+    std::mem::forget(r);
+    assert!(ok);
+    let rotate = current_size > max_size;
+    let w: u32 = if rotate { 1 } else { 0 };
+    let n = vs::ev_len();
+    // the last effect of the call is the one write of the record, to the writer mounted by then
+    assert!(n >= 1 && vs::ev_get(n - 1) == (0x100 | w << 4 | len as u32));
+    // exactly one open + one release of the old writer iff the call rotated, cleanup after them
+    let mut opens = 0;
+    let mut drops = 0;
+    let mut writes = 0;
+    let mut i = 0;
+    while i < n {
+        let e = vs::ev_get(i);
+        if e == 2 {
+            opens += 1;
+        }
+        if e == 0x300 {
+            drops += 1;
+        }
+        if e & 0xf00 == 0x100 {
+            writes += 1;
+        }
+        i += 1;
+    }
+    assert!(writes == 1 && opens == rotate as u32 && drops == rotate as u32);
+    if rotate {
+        assert!(n >= 4 && vs::ev_get(n - 2) == 3 && vs::ev_get(n - 3) == 0x300 && vs::ev_get(n - 4) == 2);
+    } else {
+        assert!(n == 1);
+    }
+    if let Inner::Active(Some(rs), _, _) = &state.inner {
+        match &rs.roll_state {
+            RollState::Size { max_size: m2, current_size: c2 } => {
+                assert!(*m2 == max_size);
+                assert!(*c2 == if rotate { len as u64 } else { current_size + len as u64 });
+            }
+            _ => unreachable!(),
+        }
+    } else {
+        unreachable!();
+    }
+    let f = state.flush();
+    let fok = f.is_ok();
+    std::mem::forget(f);
+    assert!(fok && vs::ev_len() == n + 1 && vs::ev_get(n) == (0x200 | w));
+    kani::cover!(rotate, "the write rotated");
+    kani::cover!(!rotate, "no rotation");
+    std::mem::forget(state);
+}
+fn cut_index_for_rcurrent(_c: &FileLogWriterConfig, _o: Option<u32>, _r: bool) -> Result<u32, std::io::Error> {
+    unreachable!("VERIF-CUT index_for_rcurrent in an instance of another naming")
+}
+fn cut_collision_free(_fs: &FileSpec, _infix: &str) -> String {
+    unreachable!("VERIF-CUT collision_free_infix_for_rotated_file in an instance of another naming")
+}
+// no-fault variant of rec_ts_current (a leaf with a reachable Err return keeps the error path of the
+// step alive for CBMC, see DESIGN.md 2)
+fn ok_ts_current(_c: &FileLogWriterConfig, infix: &str, rotate: bool, o_date: Option<&DateTime<Local>>, _f: &InfixFormat) -> Result<DateTime<Local>, std::io::Error> {
+    vs::ev_push(1);
+    vs::cell_set(12, if rotate { 1 } else { 2 });
+    vs::cell_set(13, if infix.as_bytes() == b"rCURRENT" { 1 } else { 0 });
+    Ok(stub_now())
+}
+fn ok_open_log_file(_c: &FileLogWriterConfig, _o_infix: Option<&str>) -> Result<(Box<dyn Write + Send>, PathBuf), std::io::Error> {
+    vs::ev_push(2);
+    let id = vs::cell_inc(1) as u32;
+    Ok((Box::new(RecW { id }), PathBuf::from("n")))
+}
+fn ok_cleanup(_h: Option<&list_and_cleanup::CleanupThreadHandle>, _c: &Cleanup, _f: &FileSpec, _i: &InfixFilter, _d: bool) -> Result<(), std::io::Error> {
+    vs::ev_push(3);
+    Ok(())
+}
+macro_rules! naming_integrated_harness {
+    ($name:ident, $kind:expr, $ifr:ident, $ninfix:ident, $tscur:ident, $infixts:ident, $cfi:ident) => {
+        #[kani::proof]
+        #[kani::unwind(12)]
+        #[kani::stub(verif_support::reexp::catch_unwind, verif_support::stub_cu)]
+        #[kani::stub(crate::parameters::file_spec::TimestampCfg::get_timestamp, crate::parameters::file_spec::verif_harness::cut_get_timestamp)]
+        #[kani::stub(chrono::Local::now, stub_now)]
+        #[kani::stub(get_creation_timestamp, stub_creation_ts)]
+        #[kani::stub(numbers::index_for_rcurrent, $ifr)]
+        #[kani::stub(numbers::number_infix, $ninfix)]
+        #[kani::stub(open_log_file, ok_open_log_file)]
+        #[kani::stub(list_and_cleanup::remove_or_compress_too_old_logfiles, ok_cleanup)]
+        #[kani::stub(timestamps::creation_timestamp_of_currentfile, $tscur)]
+        #[kani::stub(timestamps::infix_from_timestamp, $infixts)]
+        #[kani::stub(crate::FileSpec::collision_free_infix_for_rotated_file, $cfi)]
+        #[kani::stub(crate::util::eprint_err, stub_eprint_err_ev)]
+        #[kani::stub(State::initialize, cut_initialize)]
+        #[kani::stub(list_and_cleanup::CleanupThreadHandle::shutdown, cut_cleanup_thread_shutdown)]
+        fn $name() {
+            naming_integrated_case($kind);
+        }
+    };
+}
+// @verif prop=C01,C04 tier=quick timeout=900 bounds=one-write_buffer-call-with-the-real-rotation-half,NumbersDirect(idx<200),Size{max,cur}(cur<2^63),record-1..8-bytes,then-flush()
+// Integrated step, NumbersDirect: see above.
+naming_integrated_harness!(c01_step_numbers_direct, 0, cut_index_for_rcurrent, rec_number_infix, cut_ts_current, cut_infix_from_ts, cut_collision_free);
+// @verif prop=C01,C04 tier=probe timeout=900 bounds=same,Timestamps-with-rCURRENT(clock-symbolic-second)
+// BUDGET GATE: out of memory (12 GB) after 356 s: `creation_timestamp_of_currentfile(..)?` converts an io::Error into a FlexiLoggerError on a path CBMC keeps alive; not registered (the rotation half of this naming is decided by c09_rotate_timestamps_rcurrent).
+// Integrated step, timestamp naming with a current file.
+naming_integrated_harness!(c01_step_timestamps_rcurrent, 1, cut_index_for_rcurrent, cut_number_infix, ok_ts_current, cut_infix_from_ts, cut_collision_free);
+// @verif prop=C01,C04 tier=quick timeout=900 bounds=same,TimestampsDirect(clock-symbolic-second)
+// Integrated step, direct timestamp naming.
+naming_integrated_harness!(c01_step_timestamps_direct, 2, cut_index_for_rcurrent, cut_number_infix, cut_ts_current, rec_infix_from_ts, rec_collision_free);
 
 // @verif prop=C09,C01 tier=quick timeout=900 bounds=NumbersRCurrent,Age::Second-and-AgeOrSize,file-start-and-now-symbolic-seconds-of-one-minute,sizes-all-u64
 // Rotation half with the age criterion: rotates iff the clock shows a later second than the one in which the current file was started (or, with AgeOrSize, the size limit is exceeded); afterwards the remembered start is that of the new file, so no rotation happens again within the same period.
